@@ -697,6 +697,9 @@ func (fc *FnCtx) evalIndex(st *State, x *ast.IndexExpr) Val {
 	case VOpaque:
 		// map lookup
 		if _, isMap := fc.typeOf(x.X).Underlying().(*types.Map); isMap {
+			if fc.lenient && isIntMap(fc.typeOf(x.X)) {
+				return fc.mapRead(st, b, asInt(fc.eval(st, x.Index)))
+			}
 			fc.eval(st, x.Index)
 			if !fc.lenient {
 				panic(unsupported("map lookup " + fc.src(x)))
@@ -763,7 +766,7 @@ func (fc *FnCtx) evalSliceExpr(st *State, x *ast.SliceExpr) Val {
 
 // loc is an assignable location.
 type loc struct {
-	kind  int // 0 var, 1 object, 2 heap cell, 3 global/unknown
+	kind  int // 0 var, 1 object, 2 heap cell, 3 global/unknown, 4 entry of an integer map (slice.Rgn = map identity, slice.Elem = map type, idx = key)
 	v     types.Object
 	obj   int
 	path  []string
@@ -832,6 +835,8 @@ func (fc *FnCtx) load(st *State, l loc) Val {
 			return getPath(fc, v, l.path, "cell")
 		}
 		return v
+	case 4:
+		return fc.mapRead(st, VOpaque{l.slice.Rgn, l.slice.Elem}, l.idx)
 	}
 	fc.havocs++
 	return fc.freshVal(l.typ, "unk")
@@ -862,6 +867,8 @@ func (fc *FnCtx) storeLoc(st *State, l loc, v Val) {
 			v = setPath(fc, cur, l.path, v, "cell")
 		}
 		fc.writeElem(st, l.slice, l.idx, v)
+	case 4:
+		fc.mapWrite(st, VOpaque{l.slice.Rgn, l.slice.Elem}, l.idx, asInt(v))
 	default:
 		// unknown location: in lenient mode the write is dropped (the location reads back as unknown)
 		if !fc.lenient {
@@ -953,6 +960,11 @@ func (fc *FnCtx) lvalue(st *State, e ast.Expr) loc {
 			}
 			return loc{kind: 3, typ: u.Elem()}
 		case *types.Map:
+			if fc.lenient && isIntMap(fc.typeOf(x.X)) {
+				if mv, ok := fc.eval(st, x.X).(VOpaque); ok {
+					return loc{kind: 4, slice: VSlice{Rgn: mv.ID, Elem: mv.Typ}, idx: asInt(fc.eval(st, x.Index)), typ: fc.typeOf(e)}
+				}
+			}
 			fc.eval(st, x.X)
 			fc.eval(st, x.Index)
 			return loc{kind: 3, typ: fc.typeOf(e)}
